@@ -19,8 +19,9 @@ def recorded (s : St) (d : String) : Nat :=
 def solvent (s : St) : Bool := (denoms s).all (fun d => decide (recorded s d ≤ s.bal clpAcct d))
 
 /-- the exact-equality half of C01: apart from the rounding remainders left behind by decommissions, the
-    module account holds exactly the recorded amounts.  `budget` = the number of provider refunds made by
-    the decommissions of the history so far (each refund truncates at most one base unit per token). -/
+    module account holds exactly the recorded amounts.  `budget` = what the provider refunds of the
+    decommissions of the history so far may have left behind per token: per refund the truncated base unit plus
+    the 18-decimal rounding of the withdrawal quotients (≤ 2 + depth·10⁻¹⁷ base units). -/
 def exact (s : St) (budget : Nat) : Bool :=
   (denoms s).all (fun d => decide (s.bal clpAcct d ≤ recorded s d + budget))
 
